@@ -641,3 +641,15 @@ def density_probe(p):
                 return dict(status="not-reproduced", detail=r["detail"])
             return dict(status="confirmed", failing_input=dict(grid=r["grid"], N=r["N"], note="after the other grid objects of this sequence were built in the same process"), observed=r["detail"], expected=r["what"])
     return dict(status="error", detail="no such obligation: %s" % want)
+
+
+def spline_method_probe(p):
+    """C17: the native SplineMethod stand-in re-run; reports the named configuration"""
+    from replay import spline_method_native
+    want = p.get("obligation", "")
+    for r in spline_method_native.main():
+        if "spline_method:SplineMethod:ensures:%s[%s]" % (r["what"], r["config"]) == want:
+            if r["ok"]:
+                return dict(status="not-reproduced", detail="holds natively")
+            return dict(status="confirmed", failing_input=dict(configuration=r["config"], decision_vector="numpy RandomState(0) sequence of the harness"), observed=r["detail"], expected=r["what"])
+    return dict(status="error", detail="no such obligation")
